@@ -276,8 +276,9 @@ def run_crash(shard, rec):
 
 
 # ------------------------------------------------------------------------------------------ (3) schedules
-def _delayed_child(idx, seed, prefix, logpath, body):
-    """Run body() in this (forked) process with a seeded sleep injected at every audit event under prefix."""
+def _delayed_child(idx, seed, prefix, logpath, body, pause=None):
+    """Run body() in this (forked) process with a seeded sleep injected at every audit event under prefix.
+    pause = (event, name suffix, seconds): a long stop at those events (e.g. just before a staged file is moved)."""
     rng = random.Random(seed)
     events = []
 
@@ -290,6 +291,8 @@ def _delayed_child(idx, seed, prefix, logpath, body):
             if p.startswith(prefix):
                 events.append((time.monotonic_ns(), idx, event, os.path.basename(p)))
                 time.sleep(rng.random() * 0.002)
+                if pause and event == pause[0] and p.endswith(pause[1]):
+                    time.sleep(pause[2])
     sys.addaudithook(hook)
     out = dict(idx=idx)
     try:
@@ -336,7 +339,10 @@ def run_schedules(shard, rec):
                                     out[v] = f"raises:{type(ex).__name__}:{getattr(ex, 'code', '')}"
                             return out
                     time.sleep(rng.random() * 0.01 * (i + 1))
-                    _delayed_child(i, f"{seed}-{i}", cache, logpath, body)
+                    # every other schedule: the first populator stops for a while each time it is about to move a staged
+                    # file into place, so that the others (and the loader) run while staged files lie in the cache
+                    pause = ("os.rename", ".tmp", 0.04) if (k % 2 == 0 and i == 0) else None
+                    _delayed_child(i, f"{seed}-{i}", cache, logpath, body, pause)
                 finally:
                     os._exit(1)
             pids.append(pid)
@@ -363,6 +369,8 @@ def run_schedules(shard, rec):
         loader = logs[npop]["result"]
         case = dict(kind="schedule", seed=seed, populators=npop, versions=versions, loader=loader,
                     populator_results=[lg["result"] for lg in logs[:npop]])
+        if any(isinstance(r, str) and r.startswith("raises:") for r in case["populator_results"]):
+            rec.violation("a process populating the cache beside others raised", case)
         if not isinstance(loader, dict) or set(loader.values()) != {"ok"}:
             rec.violation("a load concurrent with cache population fails or returns different content", case,
                           key=classify_load(loader, case) if isinstance(loader, dict) else None)
